@@ -69,6 +69,7 @@ func (x *Exec) call(fr *Frame, instr ssa.Instruction, c *ssa.CallCommon, st *Sta
 		args = append(args, x.val(fr, a))
 	}
 	resT := c.Signature().Results()
+	x.curArgs = args
 	// builtins
 	if b, ok := c.Value.(*ssa.Builtin); ok {
 		return x.builtin(fr, b, c, args, st, reach, pos)
@@ -304,7 +305,10 @@ func (x *Exec) havocCall(what string, resT *types.Tuple, st *State, reach Term, 
 		!strings.HasPrefix(what, "segment.") && !strings.HasPrefix(what, "kdir.") && !strings.HasPrefix(what, "notify.") && !strings.HasPrefix(what, "dynamic call") {
 		// thin unit: a library call without contract yields arbitrary results but does not touch klevdb's
 		// heap, its mutexes or the ghost file system
-		x.sc.note("thin unit: library call %s: results arbitrary, no effect on klevdb state assumed", what)
+		x.sc.note("thin unit: library call %s: results arbitrary; the slices and local variables passed to it are overwritten arbitrarily; no other effect on klevdb state assumed", what)
+		for _, a := range x.curArgs {
+			x.havocArg(nst, a)
+		}
 	} else {
 		x.sc.note("call to %s has no contract: results and heap havocked", what)
 		x.havocAll(nst)
@@ -314,6 +318,39 @@ func (x *Exec) havocCall(what string, resT *types.Tuple, st *State, reach Term, 
 		rets = append(rets, x.freshVal("hv_ret", resT.At(i).Type()))
 	}
 	return x.packResults(resT, rets), nst
+}
+
+// havocArg: a library call without contract may write through the slices and pointers it is given.
+func (x *Exec) havocArg(st *State, a Val) {
+	if a.T == nil || a.S == "" {
+		return
+	}
+	switch t := under(a.T).(type) {
+	case *types.Slice:
+		if strings.Contains(a.S, "(") && len(a.S) > 400 {
+			return
+		}
+		key, srt := x.elemKey(t.Elem())
+		h := x.heapGet(st, key, srt)
+		es := x.so.sortOf(t.Elem())
+		na := x.sc.freshConst("hv_elems", "(Array Int "+es+")")
+		x.sc.assert(fmt.Sprintf("(forall ((i Int)) (! (=> (or (< i (s_off %s)) (>= i (+ (s_off %s) (s_cap %s)))) (= (select %s i) (select (select %s (s_reg %s)) i))) :pattern ((select %s i))))",
+			a.S, a.S, a.S, na, h, a.S, na))
+		if es == "Int" {
+			if b, ok := t.Elem().Underlying().(*types.Basic); ok && b.Kind() == types.Uint8 {
+				x.sc.assert(fmt.Sprintf("(forall ((i Int)) (! (and (<= 0 (select %s i)) (<= (select %s i) 255)) :pattern ((select %s i))))", na, na, na))
+			}
+		}
+		st.heap[key] = x.name("h", srt, store(h, app("s_reg", a.S), na))
+	case *types.Pointer:
+		if a.L != nil {
+			if a.L.ArrRegion != "" && a.L.ArrRegion != "0" {
+				return
+			}
+			nv := x.freshVal("hv_deref", a.L.T)
+			x.storeLoc(st, a.L, nv.S)
+		}
+	}
 }
 
 // applyContract: modular call — check requires, havoc assigns, assume ensures.
